@@ -4,7 +4,7 @@ from __future__ import annotations
 import ast
 import itertools
 
-from ..core import AnalysisError, dotted, norm, qualname, short
+from ..core import AnalysisError, Module, call_attr, call_name, dotted, norm, parent, qualname, short
 from ..driver import Knockout, sub_nth, sub_once
 from ..report import Ctx
 from ..rules import numeric, shapes
@@ -26,7 +26,134 @@ EXPLANATION = (
 REP = {"dm": "density", "s": "stabilizer", "g": "graph"}
 
 
+# ------------------------------------------------------------------------------------------------ kinds of values (mini inference)
+
+def _expr_kinds(repo, m, fn, e, depth=0, _seen=None):
+    """kinds a value can have: 'ndarray', 'nxgraph', 'list', 'cls:<Name>', '?'  (flow-insensitive, through local names and module functions)"""
+    if depth > 12:
+        return {"?"}
+    _seen = _seen if _seen is not None else set()
+    if isinstance(e, ast.Name):
+        key = (id(fn), e.id)
+        if key in _seen:
+            return set()  # a self-reference (x = x + x.T) adds no new kind
+        _seen = _seen | {key}
+    if isinstance(e, (ast.List, ast.ListComp)):
+        return {"list"}
+    if isinstance(e, ast.Constant):
+        return {"const"}
+    if isinstance(e, ast.BinOp):
+        ks = _expr_kinds(repo, m, fn, e.left, depth + 1, _seen) | _expr_kinds(repo, m, fn, e.right, depth + 1, _seen)
+        return {"ndarray"} if "ndarray" in ks else ks
+    if isinstance(e, ast.Attribute) and e.attr == "T":
+        return _expr_kinds(repo, m, fn, e.value, depth + 1, _seen)
+    if isinstance(e, ast.Subscript):
+        return {"?"}
+    if isinstance(e, ast.Call):
+        cn = call_name(e) or ""
+        if cn.startswith(("np.", "numpy.", "dmnp.", "linalg.")):
+            return {"ndarray"}
+        if cn.startswith("nx."):
+            return {"nxgraph"}
+        last = cn.split(".")[-1]
+        if last and last[0].isupper():
+            return {"cls:" + last}
+        # module-level function of this module or of an imported graphiq module
+        tgt = None
+        if isinstance(e.func, ast.Name):
+            tgt = repo.try_anchor(m.rel, e.func.id)
+            tm = m
+        elif isinstance(e.func, ast.Attribute) and isinstance(e.func.value, ast.Name):
+            mod = repo.resolve_dotted(m, e.func.value.id)
+            tm = None
+            if isinstance(mod, str):
+                rel_ = mod.replace(".", "/") + ".py"
+                try:
+                    tm = repo.module(rel_)
+                except Exception:
+                    tm = None
+            if tm is not None:
+                tgt = repo.try_anchor(tm.rel, e.func.attr)
+        if tgt is not None and isinstance(tgt, ast.FunctionDef):
+            out = set()
+            for r in ast.walk(tgt):
+                if isinstance(r, ast.Return) and r.value is not None:
+                    out |= _expr_kinds(repo, tm, tgt, r.value, depth + 1, _seen)
+            return out or {"?"}
+        return {"?"}
+    if isinstance(e, ast.Name):
+        out = set()
+        for a in ast.walk(fn):
+            if isinstance(a, ast.Assign) and any(isinstance(t, ast.Name) and t.id == e.id for t in a.targets):
+                out |= _expr_kinds(repo, m, fn, a.value, depth + 1, _seen)
+            if isinstance(a, ast.Call) and call_name(a) in (f"{e.id}.append", f"{e.id}.extend"):
+                out.add("list")
+        return out or {"?"}
+    return {"?"}
+
+
+def rule_helper_kinds(ctx: Ctx) -> None:
+    """call.accepts: (a) every tableau handed to rc.stabilizer_to_density / rc.stabilizer_to_graph by QuantumState's helpers has been
+    turned into a StabilizerTableau with `.to_stabilizer()` (those functions dispatch on list / StabilizerTableau and raise otherwise;
+    a representation holds CliffordTableaux); (b) `Graph(x)` in the helpers receives a networkx graph (Graph.__init__ raises
+    TypeError for anything else), never the adjacency *array* some converters return."""
+    repo = ctx.repo
+    m = repo.module(STATE)
+    n = 0
+    for fn in [f for f in sm_functions(repo)]:
+        q = qualname(fn)
+        for c in [x for x in ast.walk(fn) if isinstance(x, ast.Call)]:
+            cn = call_name(c) or ""
+            if cn in ("rc.stabilizer_to_density", "rc.stabilizer_to_graph") and c.args:
+                n += 1
+                ctx.touch(m, fn)
+                a = c.args[0]
+                ok = False
+                if isinstance(a, ast.Call) and call_attr(a) == "to_stabilizer":
+                    ok = True
+                elif isinstance(a, ast.Name):
+                    apps = [x for x in ast.walk(fn) if isinstance(x, ast.Call) and call_name(x) == f"{a.id}.append" and x.args]
+                    ok = bool(apps) and all(isinstance(x.args[0], ast.Tuple) and len(x.args[0].elts) == 2 and isinstance(x.args[0].elts[1], ast.Call)
+                                            and call_attr(x.args[0].elts[1]) == "to_stabilizer" for x in apps)
+                if ok:
+                    ctx.ok("call.accepts", m, c, what=f"{q}: stabilizer tableau(x) handed to {cn}")
+                else:
+                    ctx.fail("call.accepts", m, c,
+                             f"{q} calls `{short(c)}`: the argument is the representation's own data (a CliffordTableau), but {cn.split('.')[-1]} accepts "
+                             f"only a StabilizerTableau or a list of (p, StabilizerTableau) and raises ValueError otherwise — this conversion fails on "
+                             f"every call; the sibling branches convert with `.to_stabilizer()` first", func=q,
+                             construct=f"{q}: {cn.split('.')[-1]} receives a CliffordTableau")
+            if cn == "Graph" and c.args:
+                n += 1
+                ctx.touch(m, fn)
+                ks = _expr_kinds(repo, m, fn, c.args[0])
+                # narrow by an enclosing `isinstance(x, list)` test
+                if isinstance(c.args[0], ast.Name):
+                    p_ = parent(c)
+                    while p_ is not None and p_ is not fn:
+                        if isinstance(p_, ast.If) and isinstance(p_.test, ast.Call) and call_name(p_.test) == "isinstance" \
+                                and norm(p_.test.args[0]) == c.args[0].id and norm(p_.test.args[1]) == "list":
+                            in_body = any(c is x for b_ in p_.body for x in ast.walk(b_))
+                            ks = ({"list"} & ks) if in_body else (ks - {"list"})
+                        p_ = parent(p_)
+                if ks and ks <= {"ndarray"}:
+                    ctx.fail("call.accepts", m, c,
+                             f"{q} builds `{short(c)}` from a value that is always a numpy adjacency array, but Graph.__init__ accepts only a "
+                             f"networkx.Graph and raises TypeError otherwise — this conversion fails on every call", func=q,
+                             construct=f"{q}: Graph() receives an adjacency array")
+                else:
+                    ctx.ok("call.accepts", m, c, what=f"{q}: Graph({norm(c.args[0])}) kinds {sorted(ks)}")
+    if n < 3:
+        raise AnalysisError("call.accepts: too few converter call sites in QuantumState")
+
+
+def sm_functions(repo):
+    sm = repo.module(STATE)
+    return [f for f in sm.functions() if qualname(f).startswith("QuantumState._") and ("_to_" in f.name or f.name.startswith("_initialize"))]
+
+
 def run(ctx: Ctx) -> None:
+    rule_helper_kinds(ctx)
     repo = ctx.repo
     numeric.rule_missing_return(ctx, SRC)
     sm = repo.module(STATE)
@@ -139,6 +266,8 @@ def _diag_view(src: str) -> str:
 
 
 KNOCKOUTS = [
+    Knockout("s-to-g-clifford-arg", STATE, sub_once("            graph_list = rc.stabilizer_to_graph(rep.data.to_stabilizer())", "            graph_list = rc.stabilizer_to_graph(rep.data)"), "call.accepts", "receives a CliffordTableau", on_fixed_only=True),
+    Knockout("dm-to-g-array-arg", STATE, sub_once("            new_rep = Graph(nx.from_numpy_array(new_data))", "            new_rep = Graph(new_data)"), "call.accepts", "adjacency array", on_fixed_only=True),
     Knockout("clifford-input-signs-dropped", SRC, sub_once("        tab = state.to_stabilizer()\n", "        tab = StabilizerTableau(state.stabilizer)\n"), "sign.carry", "without signs"),
     Knockout("convert-from-stale-copy", STATE, sub_once("            self._rep_data = conversion_func(tmp_data)", "            self._rep_data = conversion_func(self._initial_data)"), "table.convert", "not computed from the current data"),
     Knockout("diag-view-read-late", SRC, _diag_view, "view.stale", "read after in-place modification"),
